@@ -530,11 +530,21 @@ func checkTimeoutCollapse(p *Prog, r *Report) {
 			continue
 		}
 		var lost *Term
-		for _, a := range fs.Atoms {
-			if a.Op == "<" && a.Args[0].IsConst() && a.Args[0].Int == 0 && a.Args[1].Op == "var" {
-				// is that local incremented in the arm guarded by the resend-timestamp test?
-				if v, ok := a.Args[1].Obj.(*types.Var); ok && p.incrementedUnderRTO(flush, v) {
-					lost = a.Args[1]
+		var lostDisj string // key of a disjunction `0 < L || …` that controls the store (the collapse then happens at least whenever L > 0)
+		for _, a0 := range fs.Atoms {
+			cands := []*Term{a0}
+			if a0.Op == "||" {
+				cands = a0.Args
+			}
+			for _, a := range cands {
+				if a.Op == "<" && a.Args[0].IsConst() && a.Args[0].Int == 0 && a.Args[1].Op == "var" {
+					// is that local incremented in the arm guarded by the resend-timestamp test?
+					if v, ok := a.Args[1].Obj.(*types.Var); ok && p.incrementedUnderRTO(flush, v) {
+						lost = a.Args[1]
+						if a0.Op == "||" {
+							lostDisj = a0.Key()
+						}
+					}
 				}
 			}
 		}
@@ -549,7 +559,7 @@ func checkTimeoutCollapse(p *Prog, r *Report) {
 		var extra []string
 		for _, ct := range c.DominatingConds(pt) {
 			for _, a := range Conjuncts(ct) {
-				if a.Key() == eq(tFld(st.Base, fNocwnd), tConst(0)).Key() || a.Key() == lt(tConst(0), lost).Key() {
+				if a.Key() == eq(tFld(st.Base, fNocwnd), tConst(0)).Key() || a.Key() == lt(tConst(0), lost).Key() || (lostDisj != "" && p.ExpandHelpers(a).Key() == lostDisj) || (lostDisj != "" && a.Key() == lostDisj) {
 					continue
 				}
 				extra = append(extra, pretty(a.Key()))
